@@ -165,24 +165,25 @@ def gen_case(rng, backend, mode):
             "comparisons": comps, "prior": rng.choice([0.01, 0.1, 0.3, 0.5]), "mode": mode}
     rounds = [None, None, None, 0.25, 0.25, 0.5, 1.0, 2.0] + ([0.1, 0.1, 0.3] if backend == "duckdb" else [])
     case["round"] = rng.choice(rounds)
+    recs = [(names[t], r["unique_id"]) for t in range(ntab) for r in tables[t]]
+    k = rng.randint(3, 14)
+    labels = []
+    for _ in range(k):
+        a, b = rng.sample(recs, 2)
+        if lt == "link_only" and a[0] == b[0]:
+            continue      # a link_only job never compares two records of one dataset: label outside the job
+        cms = rng.choice([0.0, 0.0, 0.25, 0.5, 0.75, 1.0, 1.0, 1.0, None])
+        labels.append({"l": list(a), "r": list(b), "cms": cms})
+        if rng.random() < 0.12:                       # the same pair again, other orientation
+            labels.append({"l": list(b), "r": list(a), "cms": rng.choice([0.0, 1.0, cms])})
+    if rng.random() < 0.3 and labels:                 # a label for a record that does not exist
+        labels.append({"l": labels[0]["l"], "r": [names[-1], 99], "cms": 1.0})
+    if not labels:
+        a = recs[0]
+        b = next(r for r in reversed(recs) if lt != "link_only" or r[0] != a[0])
+        labels.append({"l": list(b), "r": list(a), "cms": 1.0})
+    case["labels"] = labels
     if mode == "table":
-        recs = [(names[t], r["unique_id"]) for t in range(ntab) for r in tables[t]]
-        k = rng.randint(3, 14)
-        labels = []
-        for _ in range(k):
-            a, b = rng.sample(recs, 2)
-            if lt == "link_only" and a[0] == b[0]:
-                continue      # a link_only job never compares two records of one dataset: label outside the job
-            cms = rng.choice([0.0, 0.0, 0.25, 0.5, 0.75, 1.0, 1.0, 1.0, None])
-            labels.append({"l": list(a), "r": list(b), "cms": cms})
-            if rng.random() < 0.12:                       # the same pair again, other orientation
-                labels.append({"l": list(b), "r": list(a), "cms": rng.choice([0.0, 1.0, cms])})
-        if rng.random() < 0.3 and labels:                 # a label for a record that does not exist
-            labels.append({"l": labels[0]["l"], "r": [names[-1], 99], "cms": 1.0})
-        if not labels:
-            a, b = recs[0], recs[-1]
-            labels.append({"l": list(b), "r": list(a), "cms": 1.0})
-        case["labels"] = labels
         case["ta"] = rng.choice([0.5, 0.5, 0.25, 0.75, 1.0, 0.0])
         case["zu"] = True
     else:
@@ -194,6 +195,23 @@ def gen_case(rng, backend, mode):
         case["errors"]["inc_fp"] = False
     elif w < 0.4:
         case["errors"]["inc_fn"] = False
+    # a history on ONE linker: the calls above, then a change of the model, then the calls again
+    case["history"] = None
+    if rng.random() < 0.5:
+        kind = rng.choice(["mu", "mu", "prior", "prior_estimate", "estimate_u"])
+        change = {"kind": kind, "comparison": rng.randrange(3), "level": 1, "m": rng.choice([0.55, 0.3, 0.97]),
+                  "u": rng.choice([0.35, 0.02, 0.6]), "prior": rng.choice([0.02, 0.2, 0.7]),
+                  "rule": rng.choice(ATOMS[:3]), "recall": rng.choice([0.5, 0.9]), "seed": rng.randrange(100)}
+        mode2 = mode
+        if rng.random() < 0.25:
+            other = "column" if mode == "table" else "table"
+            ok_other = (other == "column" and nrules >= 1) or (other == "table" and (backend != "sqlite" or lt == "dedupe_only"))
+            mode2 = other if ok_other else mode
+        second = {"mode": mode2, "round": rng.choice(rounds),
+                  "ta": rng.choice([0.5, 0.25, 1.0]) if mode2 == "column" else rng.choice([0.5, 0.25, 0.75, 1.0, 0.0]),
+                  "zu": True if mode2 == "table" else rng.random() < 0.7,
+                  "errors": {"inc_fp": True, "inc_fn": True, "t": rng.choice([0.5, 0.25, 0.75])}}
+        case["history"] = {"change": change, "second": second}
     return case
 
 
@@ -312,22 +330,78 @@ def canon_float(x):
     return x
 
 
-def run_impl(case):
-    """-> result dict with the implementation's truth table, the captured labelled pairs with
-    scores, and the prediction-error output."""
-    lk = make_linker(case)
-    store = {}
-    tap(lk._db_api, ["__splink__labels_with_predictions", "__splink__predictions_from_label_column"], store)
+def fresh_linker(case, model, rules):
+    """a new linker on a new connection carrying the given (current) model"""
+    d = copy.deepcopy(model)
+    d["blocking_rules_to_generate_predictions"] = list(rules)
+    d["retain_matching_columns"] = True
+    aliases = case["names"] if len(case["names"]) > 1 else None
+    return su.linker(frames_of(case), d, case["backend"], aliases=aliases)
+
+
+def independent_oracles(case, model):
+    """found-by-blocking and the scores of EVERY admissible pair under the current model, from
+    plain predict() calls of fresh linkers (independent of the accuracy code and of any cache)"""
+    found = None
+    if case["rules"]:
+        found = {}
+        for r in fresh_linker(case, model, case["rules"]).inference.predict().as_record_dict():
+            a, b = row_ids(case, r)
+            found[frozenset([a, b])] = int(r.get("match_key", 0))
+    scores = {}
+    for r in fresh_linker(case, model, []).inference.predict().as_record_dict():
+        a, b = row_ids(case, r)
+        scores[frozenset([a, b])] = (r["match_weight"], r["match_probability"])
+    return found, scores
+
+
+def apply_change(lk, ch):
+    """change the model of an existing linker (no invalidate_cache, as a user would)"""
+    so = lk._settings_obj
+    kind = ch["kind"]
+    if kind == "prior_estimate":
+        try:
+            lk.training.estimate_probability_two_random_records_match([ch["rule"]], recall=ch["recall"])
+            p = so._probability_two_random_records_match
+            if not (0 < p < 1):
+                raise ValueError("degenerate prior")
+            return "prior_estimate"
+        except Exception:
+            kind = "prior"
+    if kind == "estimate_u":
+        try:
+            lk.training.estimate_u_using_random_sampling(max_pairs=2000, seed=ch["seed"])
+            for c in so.comparisons:
+                for lv in c.comparison_levels:
+                    if lv.is_null_level:
+                        continue
+                    for attr in ("m_probability", "u_probability"):
+                        v = getattr(lv, attr)
+                        if not isinstance(v, (int, float)) or not (0 < v < 1):
+                            setattr(lv, attr, 0.3)
+            return "estimate_u"
+        except Exception:
+            kind = "mu"
+    if kind == "prior":
+        so.core_model_settings.probability_two_random_records_match = ch["prior"]
+        return "prior"
+    comp = so.comparisons[ch["comparison"] % len(so.comparisons)]
+    lv = [x for x in comp.comparison_levels if not x.is_null_level][0]
+    lv.m_probability = ch["m"]
+    lv.u_probability = ch["u"]
+    return "mu"
+
+
+def one_call(lk, case, store, labels_table):
     res = {}
     er = case["errors"]
     if case["mode"] == "table":
-        lt = lk.table_management.register_labels_table(labels_frame(case))
         tab = lk.evaluation.accuracy_analysis_from_labels_table(
-            lt, threshold_match_probability=case["ta"], match_weight_round_to_nearest=case["round"],
+            labels_table, threshold_match_probability=case["ta"], match_weight_round_to_nearest=case["round"],
             output_type="table").as_record_dict()
         res["lwp"] = store["__splink__labels_with_predictions"][-1]
         errs = lk.evaluation.prediction_errors_from_labels_table(
-            lt, include_false_positives=er["inc_fp"], include_false_negatives=er["inc_fn"],
+            labels_table, include_false_positives=er["inc_fp"], include_false_negatives=er["inc_fn"],
             threshold_match_probability=er["t"]).as_record_dict()
         res["lwp_err"] = store["__splink__labels_with_predictions"][-1]
     else:
@@ -342,8 +416,33 @@ def run_impl(case):
         res["lwp_err"] = store["__splink__predictions_from_label_column"][-1]
     res["table"] = sorted(tab, key=lambda r: r["truth_threshold"])
     res["errors"] = errs
-    res["found_oracle"] = predict_pairs(case)
+    res["model"] = lk.misc.save_model_to_json()
+    res["found_oracle"], res["score_oracle"] = independent_oracles(case, res["model"])
     return res
+
+
+def run_history(case):
+    """-> [(case_i, result_i)]: the accuracy calls of `case` on one linker, and - if the case has
+    a history - the calls again after the model was changed on that same linker."""
+    lk = make_linker(case)
+    store = {}
+    tap(lk._db_api, ["__splink__labels_with_predictions", "__splink__predictions_from_label_column"], store)
+    needs_table = case["mode"] == "table" or (case.get("history") and case["history"]["second"]["mode"] == "table")
+    lt = lk.table_management.register_labels_table(labels_frame(case)) if needs_table else None
+    out = [(case, one_call(lk, case, store, lt))]
+    h = case.get("history")
+    if h:
+        applied = apply_change(lk, h["change"])
+        case2 = dict(case, **h["second"])
+        case2["history"] = None
+        case2["step"] = {"after_change": applied}
+        out.append((case2, one_call(lk, case2, store, lt)))
+    return out
+
+
+def run_impl(case):
+    """single-call form (used by the shrinker): the LAST call of the history"""
+    return run_history(case)[-1][1]
 
 
 # ---------------------------------------------------------------------------- specification side
@@ -401,12 +500,17 @@ def spec_rows(case, res):
     """The labelled pairs as the PROPERTY sees them, independent of the implementation except
     for the score: list of dict(pair, score, cms, found) (+ number of implicit negatives)."""
     lwp = res["lwp"]
+    so = res["score_oracle"]
+    problems = []
     score_of = {}
     for r in lwp:
         a, b = row_ids(case, r)
-        score_of.setdefault(frozenset([a, b]), Fraction(r["match_weight"]))
+        key = frozenset([a, b])
+        if key in so and abs(so[key][0] - r["match_weight"]) <= 1e-9 * (1 + abs(so[key][0])):
+            score_of.setdefault(key, Fraction(r["match_weight"]))     # the implementation's float is the canonical one
+    for key, (mw, _) in so.items():
+        score_of.setdefault(key, Fraction(mw))                         # otherwise: the current model's score
     fo = res["found_oracle"]
-    problems = []
     rows = []
     if case["mode"] == "table":
         existing = {(n, u) for n, u, _ in all_records(case)}
@@ -476,6 +580,17 @@ def oracle(case, res):
     bad = [("pairs", None, p) for p in problems]
     # the implementation's own view of each labelled pair must agree with the independent one
     fo = res["found_oracle"]
+    so = res["score_oracle"]
+    for which in ("lwp", "lwp_err"):
+        for r in res[which]:
+            key = frozenset(row_ids(case, r))
+            if key not in so:
+                continue
+            mw, mp = so[key]
+            if abs(mw - r["match_weight"]) > 1e-9 * (1 + abs(mw)) or abs(mp - r["match_probability"]) > 1e-9:
+                bad.append(("stale_scores", None, f"pair {sorted(key)} is scored match_weight={r['match_weight']} match_probability={r['match_probability']} "
+                            f"but the current model scores it {mw} / {mp}"))
+                break
     for r in res["lwp"]:
         a, b = row_ids(case, r)
         key = frozenset([a, b])
@@ -554,6 +669,9 @@ def oracle_errors(case, res):
         key = frozenset([a, b])
         cms = canon_float(r["clerical_match_score"])
         mp = Fraction(r["match_probability"])
+        so = res["score_oracle"]
+        if key in so and abs(so[key][1] - r["match_probability"]) > 1e-9:
+            mp = Fraction(so[key][1])                    # stale: judge with the current model's probability
         found = True if fo is None else key in fo
         fp = cms is not None and Fraction(cms) < t and mp > t
         fn = cms is not None and Fraction(cms) > t and (mp < t or (col and not found))
